@@ -245,6 +245,38 @@ def run(ctx):
                        "duplicate wakers (re-polls, cancelled futures), so waking only some entries can leave a live "
                        "waiter asleep on a satisfied condition" % (full, partial or "none"))
 
+    # ---------------------------------------------------------------- W3
+    ctx.rule("W3", "check and registration in one critical section: every function that stores into or wakes a slot either has "
+                   "exclusive access to the state (`&mut self` / `Pin<&mut Self>`) or takes the state's lock exactly once, "
+                   "before touching the slot")
+    n3 = 0
+    for key, s_ in sorted(slots.items()):
+        if s_["composite"]:
+            continue
+        for fn in sorted(s_["stores"] | s_["wakes"]):
+            for b in prog.by_short.get(fn, []):
+                if b.argc < 1 or b.kind not in ("fn", "assoc_fn"):
+                    continue
+                ty = b.local_ty(1)
+                if ty.startswith("&mut") or ty.startswith("core::pin::Pin<&mut") or not ty.startswith("&"):
+                    continue  # exclusive by type (or by value)
+                n3 += 1
+                ctx.touch(b)
+                locks = call_blocks(b, r"sync::poison::mutex::Mutex::lock$|sync::poison::rwlock::RwLock::write$|::lock_guard$")
+                # blocks touching the slot: assignments to it / wake calls deriving from it
+                touch = set()
+                for (i, j, pl, rv, line) in b.assigns():
+                    if slot_hits(slots, b, [pl] + [o[1] for o in b.trace_local(pl[0]) if o[0] == "place"]) & {key}:
+                        touch.add(i)
+                for i, t in b.calls():
+                    if re.search(r"task::wake::Waker::(wake|wake_by_ref)$", callee(t)) and t["args"] and slot_hits(slots, b, deep_places(b, t["args"][0])) & {key}:
+                        touch.add(i)
+                ok = len(locks) == 1 and all(b.dominates(locks[0], x) for x in touch)
+                ctx.ob("W3", "%s.%s|%s locks once around the slot" % (key[0].split("::")[-1], key[1], fn), ok, b.where(),
+                       "shared receiver `%s`; lock acquisitions %s; slot touched at %s: one critical section covers the condition "
+                       "check and the slot: %s (two separate acquisitions leave a window in which the notifier runs between "
+                       "check and registration)" % (ty[:40], locks, sorted(touch), ok))
+    ctx.floor("W3", "shared-receiver waiter/notifier functions", n3, 5)
     # ---------------------------------------------------------------- W4
     for fn, helpers in CLOSE_FANOUT:
         b = ctx.anchor("W4", fn)
